@@ -17,6 +17,7 @@ import time
 from typing import Any, Dict, List
 
 from .. import core_check, gen, pipeline, report, sched, tla
+from ..core_check import budget_map
 from .core import NPROC
 
 ASSUMPTIONS = [
@@ -161,7 +162,7 @@ def run(prop: str, tier: str, seed: int) -> int:
         import concurrent.futures as cf
 
         with cf.ProcessPoolExecutor(max_workers=NPROC) as ex:
-            results = list(ex.map(unit, units))
+            results = budget_map(ex, unit, units)
     else:
         results = [unit(u) for u in units]
     cov: Dict[str, Any] = {"states": 0, "transitions": 0, "edges_replayed": 0, "divergent_edges": 0, "machines": 0,
